@@ -3,6 +3,7 @@
 -/
 import TwModel
 import TwProofs.Lemmas.Roundtrip
+import TwProofs.C11
 
 namespace Tw.C20
 open Tw
@@ -142,5 +143,50 @@ example : lookupReg (registerAll {} [(.STRING, b "f", 0), (.INTEGER, b "f", 1), 
   decide
 example : lookupReg (registerAll {} [(.STRING, b "f", 0), (.INTEGER, b "f", 1), (.STRING, b "f", 1)]).custom .INTEGER (b "f") = some 1 := by
   decide
+
+/-! ### calls from the source bytes -/
+
+/-- **a registered function is called, from the source bytes**: when the value of the data entry `k`
+    has no built-in `fn` and a (non-nil) function is registered under `fn` for its type, the
+    template `{{ k.fn() }}` renders what that function returns for the converted value -/
+theorem custom_call_prints_from_source (custom : List ((VType × Bytes) × Nat)) (data : List (Bytes × GoVal)) (env : Env)
+    (hd : KeysDistinct data) (h : envFromMap data = .ok env) (k : Bytes) (g : GoVal) (hm : (k, g) ∈ data) (hk : isName k)
+    (fn : Bytes) (hfn : isName fn) (g1 g2 : Bytes) (hg1 : allWs g1) (hg2 : allWs g2) (rv : Val) (hrv : nativeToObject g = some rv)
+    (htab : hasBuiltinTable rv.type = true) (hnb : callBuiltin rv fn [] = none) (fid : Nat)
+    (hreg : lookupCustom { custom := custom } rv.type fn = some fid) :
+    evaluateStringPure custom (callSrc g1 k fn g2) data = .ok (callCustom fid rv []).toStr := by
+  obtain ⟨v0, hv0, hget⟩ := C12.data_is_visible data env hd h k g hm
+  have hv0' : v0 = rv := by rw [hrv] at hv0; cases hv0; rfl
+  subst hv0'
+  obtain ⟨prog, t2, t4, t6, hp, hs⟩ := parse_call_source g1 k fn g2 hg1 hg2 hk hfn
+  unfold evaluateStringPure envOrFail
+  rw [hp]
+  simp only [h, hs]
+  rw [show evalFuel = (evalFuel - 4) + 1 + 1 + 1 + 1 from by decide, evalProg_cons, evalStmt_succ]
+  simp only [stmtBody, calleesAt_expr]
+  simp only [evalExpr, hget, htab, evalExprs, hnb, hreg, Bool.not_true, Bool.false_eq_true, if_false, Res.bind_ok]
+  rw [evalProg_nil]
+  simp [resToOut]
+
+/-- **a built-in of the same name wins, from the source bytes**: whatever is registered — under the
+    same name, for the same type, before or after — `{{ k.fn() }}` renders the built-in's result
+    (`C11.builtin_call_prints_from_source` holds for every registry) -/
+theorem builtin_shadows_custom_from_source (custom : List ((VType × Bytes) × Nat)) (data : List (Bytes × GoVal)) (env : Env)
+    (hd : KeysDistinct data) (h : envFromMap data = .ok env) (k : Bytes) (g : GoVal) (hm : (k, g) ∈ data) (hk : isName k)
+    (fn : Bytes) (hfn : isName fn) (g1 g2 : Bytes) (hg1 : allWs g1) (hg2 : allWs g2) (rv : Val) (hrv : nativeToObject g = some rv)
+    (htab : hasBuiltinTable rv.type = true) (v : Val) (hcall : callBuiltin rv fn [] = some (.ok v)) :
+    evaluateStringPure custom (callSrc g1 k fn g2) data = .ok v.toStr ∧
+      evaluateStringPure [] (callSrc g1 k fn g2) data = .ok v.toStr :=
+  ⟨C11.builtin_call_prints_from_source custom data env hd h k g hm hk fn hfn g1 g2 hg1 hg2 rv hrv htab v hcall,
+   C11.builtin_call_prints_from_source [] data env hd h k g hm hk fn hfn g1 g2 hg1 hg2 rv hrv htab v hcall⟩
+
+example : evaluateStringPure [((.STRING, b "shout"), 0)] (b "{{ name.shout() }}") [(b "name", .str (b "ann"))] = .ok (b "ann|") := by
+  have := custom_call_prints_from_source [((.STRING, b "shout"), 0)] [(b "name", .str (b "ann"))] [[(b "name", .str (b "ann"))]]
+    (by simp [KeysDistinct]) (by rfl) (b "name") (.str (b "ann")) (by simp) (by decide) (b "shout") (by decide) [32] [32] (by decide) (by decide)
+    (.str (b "ann")) (by rfl) (by rfl) (by rfl) 0 (by rfl)
+  have hs : callSrc [32] (b "name") (b "shout") [32] = b "{{ name.shout() }}" := by decide
+  have ho : (callCustom 0 (.str (b "ann")) []).toStr = b "ann|" := by decide
+  rw [hs, ho] at this
+  exact this
 
 end Tw.C20
